@@ -255,6 +255,55 @@ impl TsigRr {
     }
 }
 
+//------------ the adversary -------------------------------------------------
+
+/// Applies one adversary action of MC_Tsig.tla to a signed message whose TSIG
+/// RR starts at `off`.  Returns whether the message still carries a TSIG.
+pub fn apply_adv(wire: &mut Vec<u8>, off: usize, op: &Value, last_full: &[u8]) -> Result<bool, String> {
+    let kind = op["kind"].as_str().unwrap_or("");
+    let (mut rr, _) = TsigRr::parse_at(wire, off).ok_or("no TSIG to tamper with")?;
+    let arg = op["arg"].as_i64().unwrap_or(0);
+    let mut reencode = true;
+    let mut signed = true;
+    match kind {
+        "FlipBody" => { wire[off - 1] ^= 1; reencode = false; }
+        "FlipMac" => { rr.mac[(arg - 1) as usize] ^= 1; }
+        "TruncShort" | "TruncOk" => { rr.mac.truncate(arg as usize); }
+        "ExtendMac" | "ExtendWithin" => {
+            // appended octets never continue the genuine MAC
+            for _ in 0..arg {
+                let p = rr.mac.len();
+                let b = if last_full.get(p) == Some(&0xa5) { 0x5a } else { 0xa5 };
+                rr.mac.push(b);
+            }
+        }
+        "RenameKey" => { rr.name = name_wire("other.key."); }
+        "RecaseKey" => { rr.name = name_wire(KEYNAME_C); }
+        "SwapAlg" => { rr.alg = alg_wire(op["arg"].as_str().unwrap_or("md5")); }
+        "ChangeOrigId" => { rr.oid = rr.oid.wrapping_add(arg as u16); }
+        "RewriteId" => { let id = get_id(wire).wrapping_add(arg as u16); set_id(wire, id); reencode = false; }
+        "ShiftTime" => { rr.time = (rr.time as i64 + arg) as u64; }
+        "SetErr" => { rr.err = arg as u16; }
+        "SetOther" | "SetOther6" => { rr.other = if arg == 6 { u48(5).to_vec() } else { vec![1, 2] }; }
+        "ForgeBadSig" | "ForgeBadKey" | "ForgeBadTime" => { wire[3] = (wire[3] & 0xf0) | 9; rr.err = arg as u16; }
+        "StripTsig" => {
+            wire.truncate(off);
+            let ar = get_ar(wire);
+            set_ar(wire, ar - 1);
+            signed = false;
+            reencode = false;
+        }
+        "MoveTsig" => { wire.extend(extra_rec()); let ar = get_ar(wire); set_ar(wire, ar + 1); reencode = false; }
+        "DupTsig" => { let e = rr.encode(); wire.extend(e); let ar = get_ar(wire); set_ar(wire, ar + 1); reencode = false; }
+        _ => return Err(format!("unknown adversary action {}", kind)),
+    }
+    if reencode {
+        wire.truncate(off);
+        wire.extend(rr.encode());
+    }
+    Ok(signed)
+}
+
 //------------ term evaluator -------------------------------------------------
 
 /// Evaluates the MAC table of a generated behaviour.  `data` of an entry is a
@@ -264,23 +313,33 @@ impl TsigRr {
 pub struct Terms {
     entries: Vec<Value>,
     full: Vec<Option<Vec<u8>>>,
+    /// pseudo-octets resolved from what was seen on the wire (wrapper runs:
+    /// bodies as the library's builders encoded them); 6000 = Time Signed of
+    /// the message an entry signs, per entry
+    pub blocks: std::collections::HashMap<u64, Vec<u8>>,
+    pub times: std::collections::HashMap<usize, u64>,
 }
 
 impl Terms {
     pub fn new(tbl: &Value) -> Self {
         let entries = tbl.as_array().cloned().unwrap_or_default();
         let n = entries.len();
-        Terms { entries, full: vec![None; n] }
+        Terms { entries, full: vec![None; n], blocks: Default::default(), times: Default::default() }
     }
     pub fn len(&self) -> usize {
         self.entries.len()
     }
-    pub fn resolve(&mut self, data: &Value) -> Result<Vec<u8>, String> {
+    pub fn resolve(&mut self, data: &Value, entry: usize) -> Result<Vec<u8>, String> {
         let mut out = vec![];
         for x in data.as_array().ok_or("data not an array")? {
             let v = x.as_u64().ok_or("non-integer in term")?;
+            if let Some(b) = self.blocks.get(&v) {
+                out.extend_from_slice(b);
+                continue;
+            }
             match v {
                 0..=255 => out.push(v as u8),
+                6000 => out.extend_from_slice(&u48(*self.times.get(&entry).ok_or("time of this entry not seen yet")?)),
                 1001..=1004 => out.extend(body_octets(v - 1000)),
                 1101..=1104 => {
                     let mut b = body_octets(v - 1100);
@@ -310,7 +369,7 @@ impl Terms {
             return Ok(f.clone());
         }
         let e = self.entries[j - 1].clone();
-        let data = self.resolve(&e["data"])?;
+        let data = self.resolve(&e["data"], j)?;
         let f = ref_hmac(e["alg"].as_str().unwrap_or("sha256"), SECRET, &data);
         self.full[j - 1] = Some(f.clone());
         Ok(f)
@@ -320,6 +379,59 @@ impl Terms {
         Ok(f[..n.min(f.len())].to_vec())
     }
 }
+
+//------------ an independent RFC 8945 layout (recorders) -----------------------
+
+pub fn sans(wire: &[u8], tsig_off: usize, oid: u16) -> Vec<u8> {
+    let mut v = wire[..tsig_off].to_vec();
+    set_id(&mut v, oid);
+    let ar = get_ar(&v);
+    set_ar(&mut v, ar - 1);
+    v
+}
+pub fn vars(keyname: &[u8], rr: &TsigRr, other_pad: bool) -> Vec<u8> {
+    let mut v: Vec<u8> = keyname.iter().map(|c| c.to_ascii_lowercase()).collect();
+    v.extend_from_slice(&[0, 255, 0, 0, 0, 0]);
+    v.extend(rr.alg.iter().map(|c| c.to_ascii_lowercase()));
+    v.extend_from_slice(&u48(rr.time));
+    v.extend_from_slice(&rr.fudge.to_be_bytes());
+    v.extend_from_slice(&rr.err.to_be_bytes());
+    v.extend_from_slice(&(rr.other.len() as u16).to_be_bytes());
+    if other_pad {
+        v.extend_from_slice(&[0, 0]);
+    }
+    v.extend_from_slice(&rr.other);
+    v
+}
+pub fn timers(rr: &TsigRr) -> Vec<u8> {
+    let mut v = u48(rr.time).to_vec();
+    v.extend_from_slice(&rr.fudge.to_be_bytes());
+    v
+}
+pub fn with_prior(prior: &[u8], rest: Vec<u8>) -> Vec<u8> {
+    let mut v = (prior.len() as u16).to_be_bytes().to_vec();
+    v.extend_from_slice(prior);
+    v.extend(rest);
+    v
+}
+pub fn cat(a: Vec<u8>, b: Vec<u8>) -> Vec<u8> {
+    let mut v = a;
+    v.extend(b);
+    v
+}
+
+/// first candidate whose HMAC reproduces the MAC on the wire (else the first)
+pub fn pick(alg: &str, cands: Vec<Vec<u8>>, mac: &[u8]) -> (Vec<u8>, Vec<u8>, bool) {
+    for c in &cands {
+        let f = ref_hmac(alg, SECRET, c);
+        if mac.len() <= f.len() && f[..mac.len()] == *mac {
+            return (c.clone(), f, true);
+        }
+    }
+    let f = ref_hmac(alg, SECRET, &cands[0]);
+    (cands[0].clone(), f, false)
+}
+
 
 //------------ classifiers ----------------------------------------------------
 
